@@ -384,42 +384,96 @@ func runHybridHistory(r *rand.Rand, o hybridOpts, t *Trace) *Case {
 			}
 			fu, _ := comet.NewFusion(fkinds[fk], cfg)
 			s := h.NewSearch()
+			// every option SETS its value: the same option given twice (a builder being re-configured)
+			// leaves the last value only. A decoy value is sometimes set first.
+			decoy := func() bool {
+				if r.Intn(8) == 0 {
+					t.Stat("hybrid.option_set_twice")
+					return true
+				}
+				return false
+			}
 			if r.Intn(8) == 0 { // builder defaults: k 10, sum aggregation, no cutoff, no threshold, 1 probe
 				k = 10
 				t.Stat("hybrid.search_default_k")
 			} else {
+				if decoy() {
+					s = s.WithK(k + 7)
+				}
 				s = s.WithK(k)
 			}
 			if !(thr == 0 && r.Intn(2) == 0) {
+				if decoy() {
+					s = s.WithThreshold(thr + 1)
+				}
 				s = s.WithThreshold(thr)
 			}
 			if !(aggz == 0 && r.Intn(2) == 0) {
+				if decoy() {
+					s = s.WithScoreAggregation(aggs[(aggz+1)%3])
+				}
 				s = s.WithScoreAggregation(aggs[aggz])
 			}
 			if !(cutoff == -1 && r.Intn(2) == 0) {
+				if decoy() {
+					s = s.WithCutoff(cutoff + 2)
+				}
 				s = s.WithCutoff(cutoff)
 			}
 			if !(np == 1 && r.Intn(2) == 0) {
+				if decoy() {
+					s = s.WithNProbes(np + 1)
+				}
 				s = s.WithNProbes(np)
 			}
 			defaultCfg := cfg.VectorWeight == 1 && cfg.TextWeight == 1 && cfg.K == 60
+			other, _ := comet.NewFusion(fkinds[fk], &comet.FusionConfig{VectorWeight: 3, TextWeight: 0.5, K: 1})
 			switch {
 			case defaultCfg && r.Intn(3) == 0:
+				if r.Intn(3) == 0 {
+					s = s.WithFusion(other) // a custom fusion of the SAME kind first: selecting by kind means its default configuration
+					t.Stat("hybrid.option_set_twice")
+				}
 				s = s.WithFusionKind(fkinds[fk]) // same strategy through the by-kind option (default configuration)
 				t.Stat("hybrid.with_fusion_kind")
 			case defaultCfg && fk == 0 && r.Intn(2) == 0:
 				t.Stat("hybrid.default_fusion") // no fusion option at all: weighted sum 1/1 is the default
 			default:
+				if decoy() {
+					if r.Intn(2) == 0 {
+						s = s.WithFusion(other)
+					} else {
+						s = s.WithFusionKind(fkinds[(fk+1)%4])
+					}
+				}
 				s = s.WithFusion(fu)
 			}
 			if len(vq) > 0 {
+				if decoy() {
+					s = s.WithVector(histVec(r, len(vq), style))
+				}
 				s = s.WithVector(cloneVec(vq))
 			}
 			if len(tqs) > 0 {
+				if decoy() {
+					s = s.WithText("decoy words", "alpha")
+				}
 				s = s.WithText(tqs...)
+			}
+			if hasM && decoy() {
+				s = s.WithMetadata(comet.Eq("cat", "a"), comet.Exists("n"))
+				if len(fs) == 0 {
+					s = s.WithMetadata() // set to nothing again
+				}
 			}
 			if len(fs) > 0 {
 				s = s.WithMetadata(fs...)
+			}
+			if hasM && decoy() {
+				s = s.WithMetadataGroups(&comet.FilterGroup{Logic: comet.AND, Filters: []comet.Filter{comet.Eq("cat", "zz")}})
+				if len(gs) == 0 {
+					s = s.WithMetadataGroups()
+				}
 			}
 			if len(gs) > 0 {
 				s = s.WithMetadataGroups(gs...)
